@@ -482,7 +482,12 @@ fn park(mut g: OsGuard<'static, Option<State>>, me: usize) {
 fn switch(mut g: OsGuard<'static, Option<State>>, me: usize, status: Status, why: &'static str, on: Vec<u64>) {
     let st = g.as_mut().unwrap();
     if st.phase == Phase::Ending {
-        // teardown: nothing blocks, nothing switches
+        // teardown: nothing blocks, nothing switches. A thread that swallowed the abort payload
+        // (a catch_unwind in the code under test) is unwound again at its next call into the runtime.
+        if st.unwinding == me && !std::thread::panicking() {
+            drop(g);
+            panic::resume_unwind(Box::new(SimAbort));
+        }
         return;
     }
     {
@@ -622,6 +627,11 @@ pub fn probe(label: &'static str, val: u64) {
             st.tr(|| format!("t{me} probe {label} {val}"));
         }
     }
+}
+/// The probes recorded so far under `label` (e.g. the library's pass_begin / pass_end hooks).
+pub fn probes_labelled(label: &str) -> Vec<ProbeEvent> {
+    let g = lock();
+    g.as_ref().map(|st| st.probes.iter().filter(|p| p.label == label).cloned().collect()).unwrap_or_default()
 }
 /// Bump a reach/fault counter.
 pub fn count(label: &'static str) {
@@ -1134,7 +1144,13 @@ pub(crate) fn enter() -> Mode {
     let g = lock();
     match g.as_ref() {
         None => Mode::Outside,
-        Some(st) if st.phase == Phase::Ending => Mode::Ending,
+        Some(st) if st.phase == Phase::Ending => {
+            if st.unwinding == me && !std::thread::panicking() {
+                drop(g);
+                panic::resume_unwind(Box::new(SimAbort));
+            }
+            Mode::Ending
+        }
         Some(_) => Mode::Sim(Ctx { g, me }),
     }
 }
